@@ -7,6 +7,7 @@ import (
 	"io"
 	"net/http"
 	"reflect"
+	"runtime/debug"
 	"strings"
 	"time"
 
@@ -15,6 +16,8 @@ import (
 	webdav "github.com/emersion/go-webdav"
 	"github.com/emersion/go-webdav/caldav"
 	"github.com/emersion/go-webdav/carddav"
+
+	"verif/harness/dav"
 )
 
 type C14Case struct {
@@ -132,6 +135,23 @@ func buildResponse(c C14Case, variant int) *scriptHTTP {
 	s := &scriptHTTP{st: c.St, hdr: http.Header{}}
 	valid, vh := validBody(c.M, c.Place)
 	switch c.Body {
+	case "badpayload", "badpayload2":
+		// a valid document whose object payload cannot be parsed
+		bad := "BEGIN:VCALENDAR\r\nthis line has no colon\r\nEND:VCALENDAR\r\n"
+		if c.Body == "badpayload2" {
+			bad = "BEGIN:VCALENDAR\r\nSUMMARY;LANGUAGE=en\r\nEND:VCALENDAR\r\n"
+		}
+		if strings.HasPrefix(c.M, "card.") {
+			// go-vcard is lenient about malformed lines; what it does refuse: a card without END, a wrong BEGIN value
+			bad = "BEGIN:VCARD\r\nVERSION:3.0\r\nFN:x\r\n"
+			if c.Body == "badpayload2" {
+				bad = "BEGIN:VCALENDAR\r\nEND:VCALENDAR\r\n"
+			}
+		}
+		s.body = []byte(strings.Replace(strings.Replace(valid, icalText, bad, 1), vcardText, bad, 1))
+		for k, v := range vh {
+			s.hdr.Set(k, v)
+		}
 	case "valid":
 		s.body = []byte(valid)
 		for k, v := range vh {
@@ -192,13 +212,14 @@ func errCode(err error) int {
 
 func runC14(c C14Case, variant int) map[string]interface{} {
 	ev := map[string]interface{}{"k": "c14", "m": c.M, "kind": c.Kind, "st": c.St, "ct": c.Ct, "body": c.Body, "place": c.Place,
-		"err": false, "code": 0, "cond": false, "panic": false, "hang": false, "deleted": 0, "items": 0}
+		"err": false, "code": 0, "cond": false, "panic": false, "panicin": "", "hang": false, "deleted": 0, "items": 0}
 	tr := buildResponse(c, variant)
 	type result struct {
 		err     error
 		items   int
 		deleted int
 		pan     bool
+		panIn   string
 	}
 	done := make(chan result, 1)
 	go func() {
@@ -206,6 +227,7 @@ func runC14(c C14Case, variant int) map[string]interface{} {
 		defer func() {
 			if recover() != nil {
 				r.pan = true
+				r.panIn = dav.PanicOrigin(string(debug.Stack()))
 			}
 			done <- r
 		}()
@@ -325,6 +347,7 @@ func runC14(c C14Case, variant int) map[string]interface{} {
 	select {
 	case r := <-done:
 		ev["panic"] = r.pan
+		ev["panicin"] = r.panIn
 		ev["err"] = r.err != nil
 		if r.err != nil {
 			ev["code"] = errCode(r.err)
